@@ -279,6 +279,8 @@ def parse_report(out):
                                "vmin": int(t[6]), "vmax": int(t[7]), "pairbad": int(t[8]), "pairwit": [int(x) for x in t[9].split(",")]}
         elif t[0] == "D":
             div = int(t[1])
+        elif t[0] == "F":
+            rows[("F", int(t[1]))] = int(t[2])
     return rows, div
 
 
@@ -324,6 +326,9 @@ def stmt_exprs(s):
     return []
 
 
+MINIC = {"model": None, "budget": 2000, "stats": {}}      # set by check(): extracted Coq interpreter = primary oracle
+
+
 def judge(funcs, work, name, count=None):
     """analyse + execute the given functions; returns (stats, wrong verdicts, unmapped findings, all findings)"""
     reset_sites(funcs)
@@ -355,12 +360,53 @@ def judge(funcs, work, name, count=None):
     fos = func_of_site(funcs)
     stats = {"functions": len(funcs), "sites": nid, "findings": len(findings), "verdict_findings": len(checks), "unmapped": len(unmapped),
              "ub_functions": len(ub_funcs), "diverged_calls": ndiv}
+    # primary oracle: the Coq MiniC interpreter on the functions that carry verdict findings and fall into its fragment
+    sw = {}
+    if MINIC["model"]:
+        import c03_minic
+        need = []
+        for c in checks:
+            fn_ = fos[c[2] if c[0] == "pair" else c[1]]
+            if fn_ not in need:
+                need.append(fn_)
+        sw = c03_minic.sweep(MINIC["model"], need, MINIC["budget"])
+        st_ = MINIC["stats"]
+        fidx = {f.name: i for i, f in enumerate(funcs)}
+        for fn_ in need:
+            status, crow, tot_ = sw[fn_.name]
+            key_ = status.replace(": ", ":").replace(" ", "-")
+            st_[key_] = st_.get(key_, 0) + 1
+            st_["calls"] = st_.get("calls", 0) + tot_.get("ok", 0)
+            # cross-check of the two oracles: when neither cut a call short, everything Coq saw on its sub-domain gcc saw too
+            if status == "ok" and tot_.get("fuel", 0) == 0 and rows.get(("F", fidx[fn_.name]), 0) == 0 and fn_.name not in ub_funcs:
+                for site_, r_ in crow.items():
+                    g_ = rows.get(site_)
+                    e_ = fn_.sites.get(site_)
+                    if g_ is None or e_ is None:
+                        continue
+                    st_["cross_checked_sites"] = st_.get("cross_checked_sites", 0) + 1
+                    if e_.skind == "V":
+                        okx = g_["vmin"] <= r_["vmin"] and r_["vmax"] <= g_["vmax"]
+                    else:
+                        okx = all(g_["n"][v_] > 0 for v_ in (0, 1) if r_["n"][v_] > 0)
+                    if not okx:
+                        st_.setdefault("oracle_disagreements", []).append((name, fn_.name, site_, r_["n"], g_["n"], r_["wit"]))
     bad = []
     for c in checks:
         kind, f = c[0], c[3]
         site = c[2] if kind == "pair" else c[1]
         fn = fos[site]
         row = rows.get(site)
+        crow = None
+        if fn.name in sw and sw[fn.name][0] == "ok" and kind in ("bool", "value"):
+            crow = sw[fn.name][1].get(site)
+        if crow is not None and fn.name not in ub_funcs:
+            names_ = [n for _, n, _ in fn.params]
+            if kind == "bool" and crow["n"][0 if c[2] else 1] > 0:
+                MINIC["stats"]["contradicted_by_coq"] = MINIC["stats"].get("contradicted_by_coq", 0) + 1
+                fn.coq_witness = getattr(fn, "coq_witness", {})
+                fn.coq_witness[site] = dict(zip(names_, crow["wit"][0 if c[2] else 1]))
+            MINIC["stats"]["verdicts_decided_by_coq"] = MINIC["stats"].get("verdicts_decided_by_coq", 0) + 1
         if fn.name in ub_funcs:
             if count:
                 count(f.id + ":ub-discarded", None)
@@ -372,7 +418,13 @@ def judge(funcs, work, name, count=None):
         if not evaluated:
             continue
         names = [n for _, n, _ in fn.params]
-        if kind == "bool":
+        if kind == "bool" and crow is not None and fn.name not in ub_funcs and crow["n"][0 if c[2] else 1] > 0:
+            # decided by the Coq interpreter (primary oracle); gcc's counts are quoted as the cross-check
+            v = c[2]
+            w = crow["wit"][0 if v else 1]
+            bad.append((f, fn, dict(zip(names, w)), "evaluates to %s for this input in the Coq MiniC interpreter (%d of %d evaluations on its sub-domain; gcc: %d of %d)" % (
+                "false" if v else "true", crow["n"][0 if v else 1], sum(crow["n"]), row["n"][0 if v else 1], sum(row["n"])), fn.sites[site]))
+        elif kind == "bool":
             v = c[2]
             if row["n"][0 if v else 1] > 0:
                 w = row["wit"][0 if v else 1]
@@ -594,6 +646,7 @@ def check(run, replay):
         rounds = 5 if quick else 40
         per = 60 if quick else 100
         tot = {}
+        MINIC["model"], MINIC["budget"], MINIC["stats"] = model, 2000, {}
         family = json.load(open(os.path.join(os.path.dirname(os.path.abspath(__file__)), "c03_family.json")))
         shrinks = [4 if quick else 30]
         arounds = 2 if quick else 10
@@ -640,6 +693,12 @@ def check(run, replay):
                 run.samples += [{"stream": "programs", "finding": f.show()} for f in fs]
         run.extra["programs"] = tot.get("functions", 0)
         run.extra["x2_programs"] = tot
+        ms = dict(MINIC["stats"])
+        dis = ms.pop("oracle_disagreements", [])
+        run.extra["x2_coq_minic_oracle"] = ms
+        for d_ in dis[:3]:
+            run.violation("oracle:%s:%s:%s" % (d_[0], d_[1], d_[2]), "the Coq MiniC interpreter saw site %s take values %s, gcc saw %s (witness inputs %s)" % (d_[2], d_[3], d_[4], d_[5]),
+                          {"broken": "the two executing oracles disagree", "round": d_[0], "function": d_[1]}, found_input=False)
         run.extra["notes"] = run.notes[:10]
     finally:
         shutil.rmtree(work, ignore_errors=True)
